@@ -120,8 +120,8 @@ PROPS["C09"] = {
     "level_text": "Stateful property test on the virtual clock: reconcile requests arrive at generated instants (sub-second to minutes apart, so the one-second truncation of stored timestamps is exercised); after every active sync the number of pod Creates is compared with min(maxParallelPodCreation, (1+floor(t/interval))*increase) computed in big integers from the state read, update-deletions with maxUnavailable, and two write-issuing syncs of one replica set must be >= reconcileFrequency-1s apart when the first status write succeeded.",
     "level_note": SM_NOTE + " t is measured from the Active condition's stored (second-truncated) transition time, one extra second of slack is granted.",
     "technique": "stateful property-based testing (rapid) on a virtual clock with a reference ramp formula",
-    "quick": {"jobs": [rapid_job("sm", "^TestC09SM$", 750, shards=4)]},
-    "thorough": {"jobs": [rapid_job("sm", "^TestC09SM$", 4000, shards=16, timeout="50m")]},
+    "quick": {"jobs": [rapid_job("sm", "^TestC09SM$", 750, shards=4), rapid_job("spacing", "^TestC09Spacing$", 2000)]},
+    "thorough": {"jobs": [rapid_job("sm", "^TestC09SM$", 4000, shards=14, timeout="50m"), rapid_job("spacing", "^TestC09Spacing$", 20000, shards=2)]},
 }
 
 PROPS["C12"] = {
